@@ -12,11 +12,11 @@ import (
 )
 
 type GoSide struct {
-	fset   *token.FileSet
-	file   *ast.File
-	rules  []*Rule
-	funcs  map[string]*ast.FuncDecl
-	used   map[string]bool
+	fset  *token.FileSet
+	file  *ast.File
+	rules []*Rule
+	funcs map[string]*ast.FuncDecl
+	used  map[string]bool
 }
 
 func unq(e ast.Expr) string {
